@@ -50,6 +50,9 @@ def make_case(prop, seed, i, tier):
         spec = G.gen_random(rng, G.profile(facility_rich=rng.random() < 0.3, p_auto=0.3))
         spec["sim"]["absence"] = absence_list(rng)
         spec["sim"]["auto_flag"] = rng.random() < 0.5
+        if i % 8 == 2:
+            # pause, edit per-resource absence lists in place, resume (one tracer over both calls)
+            return dict(prop=prop, i=i, kind="edit-resume", spec=spec, k=rng.choice([1, 2, 3, 5]), eseed=rng.randrange(10 ** 9))
         return dict(prop=prop, i=i, kind="in-step", spec=spec)
     # equivalence class: no individual absences, no component-bound automatic task,
     # (flag off or no automatic task)
@@ -77,6 +80,31 @@ def run_case(case):
         if err is not None:
             res["aborted"] = err
         res["nontrivial"] = res["counters"].get("C10.absence_steps_with_working_task", 0) > 0
+        return res
+    if case["kind"] == "edit-resume":
+        import random
+        er = random.Random(case["eseed"])
+        I.install()
+        I.set_order(I.default_order(spec))
+        m = B.build(spec)
+        tr = I.Tracer([M.MonC10()])
+        err = None
+        with I.tracing(tr):
+            try:
+                B.run(m.project, spec, max_time=case["k"])
+                rs = M.all_workers(m.project) + M.all_facilities(m.project)
+                for r_ in er.sample(rs, min(len(rs), er.randint(1, 3))):
+                    for x in er.sample(range(case["k"], case["k"] + 10), er.randint(1, 4)):
+                        if x not in r_.absence_time_list:
+                            r_.absence_time_list.append(x)
+                B.run(m.project, spec, initialize_state_info=False, initialize_log_info=False)
+            except Exception as ex:
+                err = exc_info(ex)
+        res.absorb(tr, props=("C10",))
+        res.count("C10.edit_resume_runs")
+        if err is not None:
+            res["aborted"] = err
+        res["nontrivial"] = res["counters"].get("C10.individual_absence_checks", 0) > 0
         return res
     # ---- equivalence
     I.install()
